@@ -183,9 +183,7 @@ def gen(rng, depth, kind=None, kinds=None):
         pieces = ["#", "("]
         elems = []
         for i in range(n):
-            c = sub()
-            while c.kind == "range" and c.info["text"].startswith(".."):
-                c = sub()    # `#(..5)` would read as the rest marker followed by `5`
+            c = sub()     # `..5` / `..=5` are range patterns here too (since fix 4900e66)
             elems.append(c)
             pieces.append(c)
             if i < n - 1 or rest or rng.random() < 0.2:
